@@ -24,6 +24,8 @@ import (
 //       (complete, truncated) — MaximumPacketSize 64 puts declared lengths on both sides;
 //  (ii) every vector of packets.TPacketData: every truncation and every single-byte
 //       substitution from a byte alphabet at every offset.
+//  (iv) well-formed PUBLISH (retained) / SUBSCRIBE / UNSUBSCRIBE sequences whose topic names
+//       and filters have boundary shapes (empty levels, $-levels, wildcards everywhere).
 // Threads run under the scheduler, so a panic in a connection goroutine is caught and attributed.
 
 type c28Input struct {
@@ -177,6 +179,45 @@ func c28DomainIII() []c28Input {
 	return out
 }
 
+// c28DomainIV: WELL-FORMED packets whose topic names and filters have boundary shapes (empty
+// levels, leading/trailing separators, $-prefixed levels, wildcards in every position): a
+// retained PUBLISH to T followed by SUBSCRIBE F (+UNSUBSCRIBE F), and SUBSCRIBE F followed
+// by PUBLISH T, for every T over {x,”,$s} and F over {x,”,+,#,$s} to depth 2 (T to depth 3).
+// Valid traffic must not crash the broker either.
+func c28DomainIV() []c28Input {
+	var topics, filters []string
+	var gen func(tokens []string, depth int, cur []string, out *[]string)
+	gen = func(tokens []string, depth int, cur []string, out *[]string) {
+		if len(cur) > 0 {
+			*out = append(*out, strings.Join(cur, "/"))
+		}
+		if len(cur) == depth {
+			return
+		}
+		for _, t := range tokens {
+			gen(tokens, depth, append(append([]string{}, cur...), t), out)
+		}
+	}
+	gen([]string{"x", "", "$s"}, 3, nil, &topics)
+	gen([]string{"x", "", "+", "#", "$s"}, 2, nil, &filters)
+	filters = append(filters, "+/x/#", "#/x", "+/+/+", "x/+/#", "/+/#", "$share/g/#", "$share/g/+/x", "$share//x", "$share/g/")
+	var out []c28Input
+	for _, ver := range []byte{4, 5} {
+		for _, t := range topics {
+			p := pub(t, "m", 0, 0)
+			p.Retain = true
+			pb := ref.Encode(p, ver, ref.EncOpts{})
+			for _, f := range filters {
+				sb := ref.Encode(sub(9, f, 1), ver, ref.EncOpts{})
+				ub := ref.Encode(ref.Packet{Type: ref.UNSUBSCRIBE, PacketID: 10, Filters: []ref.Filter{{Filter: f}}}, ver, ref.EncOpts{})
+				out = append(out, c28Input{Prelude: ver, Bytes: append(append(append([]byte{}, pb...), sb...), ub...), Desc: fmt.Sprintf("retained PUBLISH %q, SUBSCRIBE %q, UNSUBSCRIBE", t, f)})
+				out = append(out, c28Input{Prelude: ver, Bytes: append(append([]byte{}, sb...), pb...), Desc: fmt.Sprintf("SUBSCRIBE %q, retained PUBLISH %q", f, t)})
+			}
+		}
+	}
+	return out
+}
+
 func c28RunOne(in c28Input) (viol []explore.Violation, closed bool) {
 	w := world.New(nil, world.Config{Caps: func(c *mqtt.Capabilities) { c.MaximumPacketSize = 64 }})
 	defer w.End()
@@ -289,7 +330,9 @@ func countEvents(w *world.World, name string) int {
 
 func c28Set(arg string) explore.CaseSet {
 	var dom []c28Input
-	if strings.Contains(arg, "iii") {
+	if strings.Contains(arg, "iv") {
+		dom = c28DomainIV()
+	} else if strings.Contains(arg, "iii") {
 		dom = c28DomainIII()
 	} else if strings.Contains(arg, "ii") {
 		dom = c28DomainII(strings.Contains(arg, "deep"))
@@ -320,10 +363,12 @@ func init() {
 			explore.RunCases(c, "c28", "i", 30*time.Second)
 			explore.RunCases(c, "c28", "ii", 30*time.Second)
 			explore.RunCases(c, "c28", "iii", 15*time.Second)
+			explore.RunCases(c, "c28", "iv", 15*time.Second)
 		} else {
 			explore.RunCases(c, "c28", "i", 4*time.Minute)
 			explore.RunCases(c, "c28", "ii,deep", 6*time.Minute)
 			explore.RunCases(c, "c28", "iii", 1*time.Minute)
+			explore.RunCases(c, "c28", "iv", 1*time.Minute)
 		}
 		c.Rep.Set("rule", "each case = one byte stream sent by an attacker connection (after no/v4/v5 CONNECT) to a live broker with a reference client; evaluations = broker executions; non-trivial = streams that made the broker close the attacker connection (the rest were served as valid traffic)")
 		c.Rep.Assumption("default schedule (one connection acts at a time); concurrency of handlers is covered by C32/C33")
